@@ -719,6 +719,13 @@ func (x *Exec) havoc(st *State, keys map[string]bool) {
 	}
 	var ks []string
 	for k := range keys {
+		if i := strings.Index(k, ":"); i > 0 && (strings.HasPrefix(k, ghSent+":") || strings.HasPrefix(k, ghRecvd+":")) {
+			// typed channel wildcard (loop head, inferred frame): only channels of that type
+			if !keys[k[:i]] && x.fn != nil {
+				x.havocTyped(st, k[:i], x.chanTag(fnPkg(x.fn).Path(), k[i+1:]))
+			}
+			continue
+		}
 		ks = append(ks, k)
 	}
 	sort.Strings(ks)
